@@ -6,7 +6,7 @@ PROP = {
     "bin": "c16",
     "minimize": True,   # harness implements `--only i --keep p0,p1,..` (notes/minimisation.md)
     "coq_targets": ["theories/Mem/C16Check", "theories/Mem/BackingRegions"],
-    "n": {"quick": int(os.environ.get("C16_N", "2400")), "thorough": 24000},
+    "n": {"quick": int(os.environ.get("C16_N", "2400")), "thorough": 60000},
     "theorems": ["sections_disjoint", "abs_set_memory_step", "abs_set_memory", "get8_spec", "permissions_spec", "get_spec", "get32_spec", "set32_spec", "region_access", "find_sec_is_cover", "never_covered_unmapped"],
     "rule": "one xoshiro256** stream per (seed,index): endianness, arena (60% at 0, 20% at 0x100000, 20% in the last 256 bytes below 2^64), "
             "1-12 operations (80% set_memory with length 0-40 biased to 0/1/2/4/40 and to addresses aligned with earlier regions, 20% set32 mostly inside "
